@@ -13,6 +13,8 @@ import (
 
 type latticePoint struct{ Field, Value string }
 
+const c16Bases = 5
+
 var intLattice = []string{"<absent>", "0", "-1", "1", "2147483647", "10%", "0%", "200%", "abc%", "50"}
 var durLattice = []string{"<absent>", "0s", "-1s", "1s", "10m"}
 var i32Lattice = []string{"<absent>", "0", "-1", "1", "2147483647"}
@@ -126,7 +128,7 @@ func applyLattice(st *StrategyDef, w *World, p latticePoint) {
 }
 
 func c16Base(i int) (StrategyDef, string) {
-	switch i % 4 {
+	switch i % c16Bases {
 	case 0: // everything left to defaulting, canary block present
 		return StrategyDef{Canary: &CanaryDef{}}, "auto"
 	case 1: // explicit auto canary
@@ -134,8 +136,12 @@ func c16Base(i int) (StrategyDef, string) {
 			Canary: &CanaryDef{Replicas: "1", Duration: "2m", NoRestartsDuration: "1m", ValidationMode: "auto", AutoPauseEnabled: bptr(true), AutoPauseMaxRestarts: i32(1), AutoFailEnabled: bptr(true), AutoFailMaxRestarts: i32(3), CanaryTimeout: "10m", MaxRestartsDuration: "5m", MaxSlowStartDuration: "1m"}}, "auto"
 	case 2: // manual validation
 		return StrategyDef{ReconcileFrequency: "10s", SlowStartInterval: "10s", Canary: &CanaryDef{Replicas: "2", ValidationMode: "manual"}}, "auto"
-	default: // controller-level default manual
+	case 3: // controller-level default manual
 		return StrategyDef{ReconcileFrequency: "10s", SlowStartInterval: "1m", Canary: &CanaryDef{Replicas: "1"}}, "manual"
+	default: // fully spelled out: every field the defaulted-recogniser inspects is set, so that a
+		// single absent field exposes what the recogniser does not look at
+		return StrategyDef{MaxUnavailable: "1", MaxPodSchedulerFail: "0", SlowStartInterval: "10s", SlowStartIncrease: "1", ReconcileFrequency: "10s", MaxParallel: i32(250),
+			Canary: &CanaryDef{Replicas: "1", Duration: "2m", ValidationMode: "auto", NodeSelector: map[string]string{}, AutoPauseEnabled: bptr(true), AutoPauseMaxRestarts: i32(2), AutoFailEnabled: bptr(true), AutoFailMaxRestarts: i32(5)}}, "auto"
 	}
 }
 
@@ -146,7 +152,7 @@ func genC16(r *rand.Rand, tier string, idx int) *World {
 		w.Nodes = append(w.Nodes, &NodeDef{Name: nodeName(i)})
 	}
 	var pts []latticePoint
-	nb := 4
+	nb := c16Bases
 	single := len(lat) * nb
 	base := idx % nb
 	if idx < single {
@@ -169,7 +175,7 @@ func genC16(r *rand.Rand, tier string, idx int) *World {
 	w.EDS = []*EDSDef{e}
 	b, _ := json.Marshal(pts)
 	w.Extra["lattice"] = string(b)
-	w.AffinityMode = idx%8 >= 4
+	w.AffinityMode = (idx/c16Bases)%2 == 1
 	w.Cfg = Config{Kubelet: true}
 	return w
 }
@@ -227,7 +233,7 @@ func bodyC16(s *Sim) {
 
 func init() {
 	lat := c16Lattice()
-	register(&Profile{Name: "C16", Decide: []string{"C16"}, Quick: len(lat) * 4, Thorough: len(lat)*4 + len(lat)*len(lat)*4, Gen: genC16, Body: bodyC16,
+	register(&Profile{Name: "C16", Decide: []string{"C16"}, Quick: len(lat) * c16Bases, Thorough: len(lat)*c16Bases + len(lat)*len(lat)*c16Bases, Gen: genC16, Body: bodyC16,
 		NonVacuous: []string{"C16.defaulting", "C16.invalid-spec", "C12.write"}, Chunk: 20,
-		Rule: fmt.Sprintf("Boundary lattice of every strategy field (%d points: absent, 0, negative, 1, huge, percent, 0%%, 200%%, malformed percent; durations absent/0/negative/positive; booleans; validation mode unset/auto/manual; canary block absent; template name set) applied to 4 base configurations (all defaults, explicit auto canary, manual validation, controller-level default manual), both node-assignment modes; quick enumerates every single-field point, thorough also every pair; each spec goes through a scripted history (deploy across slow-start slots, template change, canary with a restarting pod, time-out, validation) on the fake clock with every reconcile recovered and the worker process watched for crashes of child goroutines.", len(lat))})
+		Rule: fmt.Sprintf("Boundary lattice of every strategy field (%d points: absent, 0, negative, 1, huge, percent, 0%%, 200%%, malformed percent; durations absent/0/negative/positive; booleans; validation mode unset/auto/manual; canary block absent; template name set) applied to 5 base configurations (all defaults, explicit auto canary, manual validation, controller-level default manual, fully spelled-out spec), both node-assignment modes; quick enumerates every single-field point, thorough also every pair; each spec goes through a scripted history (deploy across slow-start slots, template change, canary with a restarting pod, time-out, validation) on the fake clock with every reconcile recovered and the worker process watched for crashes of child goroutines.", len(lat))})
 }
